@@ -875,6 +875,28 @@ def cases(tier, seed):
 
 
 # =============================================================================================
+# deductive part (E1-term): the XOR game's classical / non-signaling values ARE those of its conversion to a general game
+# =============================================================================================
+def prove(tier, seed):
+    from vt.pyvc.termproofs import prove_terms
+
+    muts = [("XORGame.classical_value", "return self.to_nonlocal_game().classical_value()", "return self.to_nonlocal_game().nonsignaling_value()"),
+            ("XORGame.nonsignaling_value", "return self.to_nonlocal_game().nonsignaling_value()", "return self.to_nonlocal_game().classical_value()")]
+    out = prove_terms(["XORGame.classical_value", "XORGame.nonsignaling_value"], muts, "thorough", "c08t")
+    gen = _cases_before_frames_c08
+    for x in out["records"]:
+        if x["status"] != "discharged":
+            x["replay"] = [dict(c, function=x["function"]) for c in gen("quick", seed) if c["clause"] in ("xor.cv_ge", "xor.cv_le", "xor.conv_pred", "xor.ns_value")][:40]
+    return out
+
+
+_cases_before_frames_c08 = cases
+LEVEL_TEXT = LEVEL_TEXT + (" Proved (E1-term): XORGame.classical_value / nonsignaling_value are the values of the game's conversion to a general nonlocal game (the statement's "
+                           "'identical classical and non-signaling values'); that the conversion itself is right is a bounded clause (xor.conv_pred).")
+EXPLANATION = LEVEL_TEXT
+ENGINES = ["E1-pyvc"] + [e_ for e_ in globals().get("ENGINES", ["E3-E4-rtc"]) if e_ != "E1-pyvc"]
+
+# =============================================================================================
 # frame coverage shared by all properties (E2 obligations for every public function of the anchor files + run-time frame cases)
 # =============================================================================================
 from props import frame_all as _fa  # noqa: E402
